@@ -34,6 +34,7 @@ RULE = ('C02\'s (DataFrame, constraint set) generator (bounds placed on and '
         'not all records flagged, or a clean call after a failing call; '
         'distinct by case hash.')
 RULE += ' ' + 'Also: input frames with stepped / offset / descending / arbitrary-integer / duplicated index labels (frame and file judged by label); a field named <other field>_<suffix>; constraints handed over as a path whose file was rewritten in place after a decoy of the same size; rownumber_is_index=False in a third of the cases (RowNumber column = position from 1).'
+RULE += ' ' + 'Round 6: date bounds in the other spellings the loader reads.'
 ASSUMPTIONS = ['field names c0..c2 (flag-column naming is not the subject)',
                'kinds only on field types where the format document defines '
                'them, as in C02']
